@@ -405,6 +405,22 @@ def gen_pack_case(rng, idx, quick, flavour="gensquashfs"):
             "notail": rng.random() < 0.35, "export": rng.random() < 0.4, "devblk": rng.choice([4096, 4096, 1024, 8192]),
             "jobs": 1 if quick or rng.random() < 0.8 else rng.choice([2, 4])}
     case["backlog"] = None if quick or rng.random() < 0.7 else rng.choice([1, 3, 4, 7])
+    case["optseed"] = rng.randrange(1 << 30)
+    if rng.random() < 0.3:
+        # --no-tail-packing boundary: the limit is the *configured* block size whatever the default (128 KiB) is and
+        # wherever -T stands on the command line: one file with a size between the two, block size below or above
+        DEF = 131072
+        B = rng.choice([4096, 8192, 16384, 65536, 262144, 262144] if quick else [4096, 8192, 32768, 65536, 262144, 524288, 1048576])
+        lo, hi = min(B, DEF), max(B, DEF)
+        n = rng.choice([lo + 1, hi, hi - 1, rng.randint(lo + 1, hi), rng.randint(lo + 1, hi)])
+        if n % B == 0:
+            n -= 1
+        keep = min(rng.randint(1, 3), len(paths))
+        paths, contents = paths[:keep], [gen_content(rng, 4096, []) for _ in range(keep)]
+        word = rng.choice([b"tail packing limit ", b"0123456789"])
+        body = (word * (n // len(word) + 1))[:n] if rng.random() < 0.7 else rng.randbytes(n)
+        contents[rng.randrange(keep)] = body
+        case.update({"B": B, "paths": paths, "contents": contents, "notail": rng.random() < 0.9, "limit_case": True})
     if flavour in ("gensquashfs", "packdir") and rng.random() < 0.85:
         case["sortfile"] = gen_sortfile(rng, paths, valid_only=True)
     else:
@@ -443,13 +459,36 @@ def build_image(env, case, d):
     """run the real packer; returns (rc, stderr, image path)"""
     d.mkdir(parents=True, exist_ok=True)
     img = d / "out.sqfs"
-    opts = ["-b", case["B"], "-B", case["devblk"], "-c", case["comp"], "-j", case["jobs"], "-q", "-f"]
-    if case.get("backlog"):
-        opts += ["-Q", case["backlog"]]
-    if case["notail"]:
-        opts.append("-T")
-    if case["export"]:
-        opts.append("-e")
+    extra = {}                                                     # input-selecting options, filled in per flavour below
+
+    def cmdline(tool):
+        """all options in a seeded random order, each in a randomly chosen spelling (short / long / long=value)"""
+        import random
+        r = random.Random(case.get("optseed", case["id"]))
+        items = [("-b", "--block-size", case["B"]), ("-B", "--dev-block-size", case["devblk"]), ("-c", "--compressor", case["comp"]),
+                 ("-j", "--num-jobs", case["jobs"]), ("-q", "--quiet", None), ("-f", "--force", None)]
+        if case.get("backlog"):
+            items.append(("-Q", "--queue-backlog", case["backlog"]))
+        if case["notail"]:
+            items.append(("-T", "--no-tail-packing", None))
+        if case["export"]:
+            items.append(("-e", "--exportable", None))
+        items += [v for v in extra.values()]
+        r.shuffle(items)
+        out = [tool]
+        for short, long, val in items:
+            form = r.random()
+            if val is None:
+                out.append(short if form < 0.5 else long)
+            elif form < 0.4:
+                out += [short, val]
+            elif form < 0.7:
+                out += [long, val]
+            else:
+                out.append("%s=%s" % (long, val))
+        case["cmdline"] = " ".join(str(x) for x in out[1:])
+        return out
+
     if case["tool"] == "packdir":                                  # scan a directory instead of reading a pack file
         root = os.fsencode(str(d / "root"))
         for p, c in zip(case["paths"], case["contents"]):
@@ -457,11 +496,11 @@ def build_image(env, case, d):
             os.makedirs(os.path.dirname(full), exist_ok=True)
             with open(full, "wb") as f:
                 f.write(c)
-        cmd = [env.gen, "-D", d / "root"] + opts
+        extra["dir"] = ("-D", "--pack-dir", d / "root")
         if case["sortfile"] is not None:
             (d / "sort.txt").write_bytes(case["sortfile"])
-            cmd += ["-S", d / "sort.txt"]
-        r = env.tool(cmd + [img])
+            extra["sort"] = ("-S", "--sort-file", d / "sort.txt")
+        r = env.tool(cmdline(env.gen) + [img])
         return r.returncode, r.stderr, img
     if case["tool"] == "gensquashfs":
         lines = []
@@ -469,11 +508,11 @@ def build_image(env, case, d):
             (d / ("f%d.bin" % i)).write_bytes(c)
             lines.append(b"file " + pack_entry_name(b"/" + p) + b" 0644 0 0 " + str(d / ("f%d.bin" % i)).encode())
         (d / "pack.txt").write_bytes(b"\n".join(lines) + b"\n")
-        cmd = [env.gen, "-F", d / "pack.txt"] + opts
+        extra["pack"] = ("-F", "--pack-file", d / "pack.txt")
         if case["sortfile"] is not None:
             (d / "sort.txt").write_bytes(case["sortfile"])
-            cmd += ["-S", d / "sort.txt"]
-        r = env.tool(cmd + [img])
+            extra["sort"] = ("-S", "--sort-file", d / "sort.txt")
+        r = env.tool(cmdline(env.gen) + [img])
         return r.returncode, r.stderr, img
     bio = io.BytesIO()
     with tarfile.open(fileobj=bio, mode="w", format=tarfile.GNU_FORMAT) as tf:
@@ -482,7 +521,7 @@ def build_image(env, case, d):
             ti.size = len(c)
             ti.mode = 0o644
             tf.addfile(ti, io.BytesIO(c))
-    r = env.tool([env.t2s] + opts + [img], stdin=bio.getvalue())
+    r = env.tool(cmdline(env.t2s) + [img], stdin=bio.getvalue())
     return r.returncode, r.stderr, img
 
 
